@@ -2473,15 +2473,27 @@ class FuncOp(IRDLOperation):
         return_type = cls._get_return_type(parser, return_types)
         other_props = cls._get_other_props(arg_attrs, res_attrs, llvm_unnamed_addr)
 
+        # The properties that are printed in the attribute dictionary are read back
+        # as properties.
+        extra = dict(extra_attrs.data) if extra_attrs else {}
+        for prop_name in cls.get_irdl_definition().properties:
+            if prop_name in extra:
+                other_props[prop_name] = extra.pop(prop_name)
+        sym_visibility = other_props.pop("sym_visibility", None)
+        if not isinstance(sym_visibility, StringAttr | None):
+            extra["sym_visibility"] = sym_visibility
+            sym_visibility = None
+
         return FuncOp(
             sym_name=name,
             function_type=LLVMFunctionType(input_types, return_type, is_variadic),
             linkage=linkage,
             cconv=cconv,
             visibility=visibility,
+            sym_visibility=sym_visibility,
             body=region,
             other_props=other_props,
-            extra_attrs=dict(extra_attrs.data) if extra_attrs else None,
+            extra_attrs=extra if extra else None,
         )
 
     @staticmethod
